@@ -106,7 +106,8 @@ def parse_swp(line, S):
             continue
         dry, limit, cons, got, nb, na = map(int, f[:6])
         calls.append({"dry": dry, "limit": limit, "cons": cons, "got": got, "nb": nb, "na": na, "p": f[6][0],
-                      "q": f[6][1], "exact": got == 1 and nb + cons == S and cons > 0})
+                      "q": f[6][1], "e": f[6][2] if len(f[6]) > 2 else w[1],
+                      "exact": got == 1 and nb + cons == S and cons > 0})
     return {"ok": kv.get("ok") == "1", "fail": kv.get("fail", "?"), "frames": int(kv.get("frames", -1)),
             "nend": int(kv.get("nend", -1)), "ref": kv.get("ref", "-"), "hash": kv.get("hash", ""), "calls": calls}
 
@@ -142,7 +143,7 @@ def swap_family(c, binp, rng, sizes, quick, cfg_kv):
                 ops.append(sigl)
                 ctx.append(None)
                 for label, specs in schedules(rng, S, H, N, quick):
-                    for enc in "if":
+                    for enc in "ifxy":   # x / y: mixed run, int16 and float32 entry points alternate per chunk
                         ops.append(f"swp {enc} 1 {spec_str(specs)}")
                         ctx.append((cfgl, sigl, label, cid, dither, enc))
     # the dither probe: same signal, two partitions, dither on / off
@@ -154,7 +155,14 @@ def swap_family(c, binp, rng, sizes, quick, cfg_kv):
     rc, out, err = vlib.run_bin(binp, stdin_text="\n".join(ops) + "\n", timeout=600)
     lines = [l for l in out.split("\n") if l and not l.startswith("#")]
     st = {"runs": 0, "failed": 0, "by_configuration": {}, "by_enc_dither": {}, "by_pattern": {}, "paths": {},
-          "input_endian": None, "swap_flags": {}, "seed": SEED, "calls": 0}
+          "input_endian": None, "swap_flags": {}, "seed": SEED, "calls": 0,
+          "mixed_encoding": {f"dither {d}": {"runs": 0, "runs with a carry written through one entry point and "
+                                             "extended or read through the other": 0,
+                                             "carry written by int16 call, extended by float32 call (overflow_append)": 0,
+                                             "carry written by float32 call, extended by int16 call (overflow_append)": 0,
+                                             "carry written by int16 call, read by float32 call (read_overflow_frame)": 0,
+                                             "carry written by float32 call, read by int16 call (read_overflow_frame)": 0}
+                             for d in (0, 1)}}
     fails = {"flags": [], "tags": [], "equal": [], "ref": []}
     flags_ok, ninit = True, 0
     crashed = rc != 0 or len(lines) != len(ops)
@@ -191,6 +199,22 @@ def swap_family(c, binp, rng, sizes, quick, cfg_kv):
             for k, pred in PATHS.items():
                 if pred(call):
                     pe[k] += 1
+        if enc in "xy":
+            mx = st["mixed_encoding"][f"dither {dither}"]
+            mx["runs"] += 1
+            prev, handed = None, 0
+            for call in r["calls"]:
+                if call["cons"] <= 0:
+                    continue
+                if prev is not None and call["nb"] > 0 and call["e"] != prev and call["p"] in "Or":
+                    handed += 1
+                    mx[f"carry written by {'int16' if prev == 'i' else 'float32'} call, "
+                       + (f"extended by {'int16' if call['e'] == 'i' else 'float32'} call (overflow_append)"
+                          if call["p"] == "O" else
+                          f"read by {'int16' if call['e'] == 'i' else 'float32'} call (read_overflow_frame)")] += 1
+                prev = call["e"]
+            if handed:
+                mx["runs with a carry written through one entry point and extended or read through the other"] += 1
         if r["nend"] == 1:
             pe["fe_end short frame"] += 1
         if len(r["calls"]) == 1 and r["calls"][0]["got"] >= 2:
@@ -255,10 +279,19 @@ def swap_family(c, binp, rng, sizes, quick, cfg_kv):
         if fails[kind]:
             viol(kind, fails[kind][0])
     missing = [f"{key}: {p}" for key, pe in st["paths"].items() for p in REQUIRED if pe.get(p, 0) == 0]
-    c.oblige("byte-order family reaches, for each sample type x dither setting: overflow_append onto a non-empty carry, "
+    c.oblige("byte-order family reaches, for each sample type (int16, float32, mixed starting with int16, mixed starting "
+             "with float32) x dither setting: overflow_append onto a non-empty carry, "
              "read_overflow_frame, create_overflow_frame, append_overflow_frame, an output-limited call, a call that "
              "completes exactly one frame, a single big chunk, and fe_end flushing a short frame",
-             not missing and len(st["paths"]) == 4, missing or st["paths"])
+             not missing and len(st["paths"]) == 8, missing or st["paths"])
+    mixed_missing = [f"{d}: {k}" for d, mx in st["mixed_encoding"].items() for k, v in mx.items() if v == 0]
+    c.oblige("byte-order family, mixed runs (fe_process_int16 and fe_process_float32 calls interleaved within one "
+             "utterance, alternating per chunk, both parities): for each dither setting there are runs in which samples "
+             "carried over in fe->overflow_samps were written by a call through one entry point and then extended "
+             "(overflow_append) or turned into a frame (read_overflow_frame) by a call through the other, in both "
+             "directions; these runs are held to the same statements as the single-type runs (cell tags, host-order "
+             "fe->spch, byte-reversed run = host-order run, frames = single-call int16 reference with dither off)",
+             not mixed_missing, mixed_missing or st["mixed_encoding"])
     c.cov["swap_family"] = st
     return st
 
